@@ -289,7 +289,45 @@ class Inliner:
             out.extend(self._stmt(fi, st, stack))
         return out
 
+    def _unroll_comprehension(self, fi, st, stack):
+        """`x = [f(a) for a in xs if c]` with f a statement-form helper -> explicit loop, so that f can be inlined"""
+        if not isinstance(st, (ast.Assign, ast.Return, ast.AnnAssign)) or getattr(st, "value", None) is None:
+            return None
+        lc = st.value
+        if not (isinstance(lc, ast.ListComp) and len(lc.generators) == 1 and not lc.generators[0].is_async):
+            return None
+        g = lc.generators[0]
+        wanted = False
+        for part in [lc.elt] + list(g.ifs):
+            for c in ast.walk(part):
+                if isinstance(c, ast.Call):
+                    callee = self.candidate(fi, c, stack)
+                    if callee is not None and _expr_form(callee.node.body) is None:
+                        wanted = True
+        if not wanted:
+            return None
+        self.counter += 1
+        acc = f"_lc__i{self.counter}"
+        app = ast.Expr(value=ast.Call(func=ast.Attribute(value=ast.Name(id=acc, ctx=ast.Load()), attr="append", ctx=ast.Load()),
+                                      args=[lc.elt], keywords=[]))
+        body = [app]
+        if g.ifs:
+            test = g.ifs[0] if len(g.ifs) == 1 else ast.BoolOp(op=ast.And(), values=list(g.ifs))
+            body = [ast.If(test=test, body=[app], orelse=[])]
+        loop = ast.For(target=g.target, iter=g.iter, body=body, orelse=[])
+        init = ast.Assign(targets=[ast.Name(id=acc, ctx=ast.Store())], value=ast.List(elts=[], ctx=ast.Load()))
+        for n in (init, loop, app):
+            ast.copy_location(n, st)
+        for n in ast.walk(loop):
+            if not hasattr(n, "lineno"):
+                ast.copy_location(n, st)
+        st.value = ast.copy_location(ast.Name(id=acc, ctx=ast.Load()), lc)
+        return [init, loop, st]
+
     def _stmt(self, fi: FuncInfo, st, stack) -> list:
+        un = self._unroll_comprehension(fi, st, stack)
+        if un is not None:
+            return self._block(fi, un, stack)
         # generator loops
         if isinstance(st, ast.For) and isinstance(st.iter, ast.Call):
             callee = self.candidate(fi, st.iter, stack)
